@@ -235,5 +235,16 @@ func init() {
 		Rule: "each run = 4-14 UpstreamCluster objects obtained from a valid template by 1-3 drawn mutations (endpoint strings with bad escapes/no scheme/mixed schemes/userinfo/spaces, client and serving key material empty/truncated/mismatched, every subset of the five flow-control members with nil/negative/MaxInt32 numbers and strategies, dangling subset/schema references, feature-gate strings, names), submitted as creates or as updates of an existing cluster through the real admission plugin; every admitted object is then applied by the real pipeline (store, informer, controller goroutine, ClusterInfo with its transports and probes) and by the limiter's store; distinct = distinct trace hash; non-trivial = at least one object admitted and one rejected",
 		Real: gwReal, Stub: gwStub, Assume: append([]string{"the deciding power is seeded object generation; the simulation adds that 'can be applied' is judged by the real pipeline including the controller's sync goroutine (panics there are recorded through apimachinery's panic handlers instead of killing the worker)", "the limiter server's UpstreamConditionHandler under leadership is exercised in the rl world; here its store-level consumers run"}, gwAssume...),
 	})
+	reg(&Check{
+		ID:    "C09",
+		Title: "Gateway never exceeds the global limit; falls back to local limit on failure",
+		Batches: []Batch{
+			{World: "rlstub", Profile: "c09-byzantine", Quick: 250, Thor: 15000, PerProc: 1},
+		},
+		Rule: "each run = one gateway instance's real limiter stack (clientsets with heartbeat/readiness hysteresis, UpstreamLimiter, reconcile loop, global counter manager, wrappers, meters) for one cluster with 1-2 schemas (max-in-flight or token bucket x allocate or count strategy, local <= global), 20-120 steps of request bursts with drawn hold times, clock advances (50 ms - 6 s), server readiness flaps, leader unknown, partitions, against a scripted server that answers allocate/acquire with arbitrary int32 quotas and bursts (0, negative, > configured, MaxInt32), accept/reject, error strings and failures; then faults stop, the server answers an honest quota and the bounded-liveness clause is checked; distinct = distinct trace hash; non-trivial = requests were admitted through the server-controlled limiter and also refused or admitted locally",
+		Real: []string{"pkg/ratelimiter/clientsets (server-info sync, heartbeats, readiness hysteresis, client cache) over the simulated network", "pkg/flowcontrols UpstreamLimiter.Load/Sync/ResetLimiter", "pkg/flowcontrols/remote (reconcile loop, FlowControlCache, remote/local wrappers, global counter manager, maxInflight/tokenBucket wrappers, meters)", "client-go REST client encoding/decoding"},
+		Stub: []string{"the limiter server (byzantine script: the property quantifies over whatever the server answers)", "request threads (GetOrDefault/TryAcquire/hold/Release as the dispatcher does)", "network (simnet round tripper with partitions), fake clock"},
+		Assume: []string{"admissions are attributed to the limiter object that made them (remote vs local wrapper) through the public AllFlowControls() accessors", "token-bucket bound per limiter object allows one fresh burst per reconcile period (a new quota swaps in a new bucket)", "the server's coin is a pre-drawn sub-stream of the tape consumed in RPC arrival order", "a clean batch is evidence, not proof"},
+	})
 	reg(&Check{ID: "SMOKE", Title: "debug", Batches: []Batch{{World: "gw", Profile: "smoke", Quick: 1, Thor: 1, PerProc: 1}}})
 }
